@@ -15,7 +15,7 @@ def run(run):
                 'actions; distinct by action sequence')
     run.assumptions = ['full names of user-added nodes are unique (asset-less nodes are named by their id)']
     gsm.mc_slice(run, 'C09', 6, depth=7, must=('Generate', 'Regenerate', 'AddNode', 'RemoveNode', 'Prune', 'Analyse'))
-    gsm.bfs_slice(run, 'C09', 4 if quick else 5, keep=KEEP)
+    gsm.bfs_slice(run, 'C09', 5 if quick else 6, keep=KEEP)
     # structural edits on a copy and on a loaded graph (both slots probed after every step)
     gsm.bfs_slice(run, 'C09L', 5 if quick else 6, keep=KEEP)
     gsm.simulate(run, 'ALL', 14, 4000 if quick else 60000, keep=KEEP, timeout=300 if quick else 1800)
